@@ -733,8 +733,9 @@ pub struct Trailer {
     #[pdf(key = "Root")]
     pub root:               RcRef<Catalog>,
 
+    /// The encryption dictionary: a direct dictionary of the trailer or a reference to one (ISO 32000-1 Table 15)
     #[pdf(key = "Encrypt")]
-    pub encrypt_dict:       Option<RcRef<CryptDict>>,
+    pub encrypt_dict:       Option<MaybeRef<CryptDict>>,
 
     #[pdf(key = "Info", indirect)]
     pub info_dict:          Option<InfoDict>,
